@@ -228,6 +228,10 @@ class Sample:
         muts: dict = defaultdict(list)
 
         def get_mut(pos, ref, alt):
+            if any(c not in "ACGT" for c in alt):
+                # symbolic / spanning-deletion alleles (`*`, `<NON_REF>`): not a variant
+                log.trace(f"[sam] ignoring {pos}: {ref}->{alt}")
+                return pos, None
             off = 0
             while off < len(ref) and off < len(alt) and ref[off] == alt[off]:
                 off += 1
@@ -271,8 +275,8 @@ class Sample:
                 hgvs += [get_mut(read.pos - 1, read.ref, a) for a in read.alleles[1:]]
                 for gt in g:
                     pos, op = hgvs[gt]
-                    if op == "_":
-                        continue
+                    if op == "_" or op is None:
+                        continue  # reference allele, or a record shape that is ignored
                     if (pos, op) in self._indel_sites and op.startswith("ins"):
                         # Database insertions are read from the indel table (parsed
                         # insertions are dropped by Coverage when that table exists):
